@@ -109,6 +109,24 @@ def gen_poly_iavar(rng):
             "normalized": rng.random() < 0.5, "d": rng.choice(DISP), "t": rng.choice(["0", "0", "1"]), "iavar": True}
 
 
+def gen_zeroflux(rng):
+    """a state at which a flux is EXACTLY 0 (a variable of the rate is 0), or the scanned variable itself is 0: the
+    scaled coefficient divides by 0.  pandas reports inf / nan there (no exception); the model's entry is `none`
+    (`C18_no_number_from_zero_division`); S = the definition with exact arithmetic (None where a divisor is 0)."""
+    case = gen_powerlaw(rng)
+    c = case["content"]
+    vnames = [k for k, _ in c["vars"]]
+    zero = rng.choice(vnames)
+    case["stratum"] = "poly"
+    case["vars"] = [[k, "0" if k == zero else rng.choice(["1", "2", "1/2", "3"])] for k in vnames]
+    if case["what"] == "par":
+        case["to_scan"] = case["to_scan"] or [k for k, _ in c["pars"]]
+    case["normalized"] = rng.random() < 0.8
+    case["zeroflux"] = True
+    case.pop("orders", None)
+    return case
+
+
 def gen_chain(rng):
     n = rng.randint(1, 3)
     ks = [rng.choice(["1", "2", "1/2", "3/2"]) for _ in range(n + 1)]
@@ -683,18 +701,20 @@ def shape(case):
         return (f"mc-{case['stratum']}-{case['what']}-samples{len(case['mc']['rows'])}-"
                 f"{'samplevar' if any(col in vs for col in case['mc']['cols']) else 'samplepar'}-"
                 f"{'norm' if case['normalized'] else 'raw'}-{'y' if case['vars'] else 'init'}")
-    return (f"{case['stratum']}{'-iavar' if case.get('iavar') else ''}-{case['what']}-v{len(c['vars'])}p{len(c['pars'])}r{len(c['rxns'])}"
+    return (f"{case['stratum']}{'-iavar' if case.get('iavar') else ''}{'-zeroflux' if case.get('zeroflux') else ''}-{case['what']}-v{len(c['vars'])}p{len(c['pars'])}r{len(c['rxns'])}"
             f"-{'norm' if case['normalized'] else 'raw'}-{'y' if case['vars'] else 'init'}-d{case['d']}")
 
 
-def mask_nonfinite(ref, x):
-    """the model has no overflow: where the real entry is non-finite (None) the model's entry is not compared"""
+def mask_nonfinite(ref, x, strict=False):
+    """the model has no overflow: where the real entry is non-finite (None) the model's entry is not compared -
+    unless `strict` (small exact strata, where overflow is impossible): then a non-finite real entry must be a
+    `none` of the model, i.e. a division by an exact zero"""
     if ref is None:
-        return None
+        return x if strict else None
     if isinstance(x, list) and isinstance(ref, list) and len(x) == len(ref):
-        return [mask_nonfinite(r, y) for r, y in zip(ref, x)]
+        return [mask_nonfinite(r, y, strict) for r, y in zip(ref, x)]
     if isinstance(x, dict) and isinstance(ref, dict) and set(x) == set(ref):
-        return {k: mask_nonfinite(ref[k], v) for k, v in x.items()}
+        return {k: mask_nonfinite(ref[k], v, strict) for k, v in x.items()}
     return x
 
 
@@ -703,6 +723,10 @@ def judge_case(ctx, case, modes, S, Rs, Ms):
         ctx.hist["skipped_" + S["skip"]] = ctx.hist.get("skipped_" + S["skip"], 0) + 1
         return
     ctx.count(case, shape(case), "cols" in S or "samples" in S or ("err" in S and "before" in S))
+    if "cols" in S:
+        nz = sum(1 for _, col in S["cols"] for _, v in col if v is None)
+        if nz:
+            ctx.hist["entries-without-finite-value(zero divisor)"] = ctx.hist.get("entries-without-finite-value(zero divisor)", 0) + nz
     if case.get("raise"):
         k = "raise-expected-" + ("exception" if "err" in S else "table")
         ctx.hist[k] = ctx.hist.get(k, 0) + 1
@@ -710,10 +734,22 @@ def judge_case(ctx, case, modes, S, Rs, Ms):
     Sj = L.jnum(S)
     for mode, R, M in zip(modes, Rs, Ms):
         sub = dict(case, modes=[mode])
+        routine = {"var": "variable_elasticities", "par": "parameter_elasticities", "resp": "response_coefficients"}[case["what"]]
+        feats = ["runs", "normalized" if case["normalized"] else "unscaled", "to_scan=None" if case["to_scan"] is None else "to_scan-subset",
+                 "variables=None" if case["vars"] is None else "custom-variables"]
+        if case.get("raise"):
+            feats.append("raising")
+        if case.get("mc"):
+            feats.append("samples>processes" if len(case["mc"]["rows"]) > mode[1] else "samples<=processes")
+        elif case["what"] == "resp":
+            feats.append("sequential" if mode[0] == "seq" else "pool")
+        for f in feats:
+            k = f"driver {'mc' if case.get('mc') else 'mca'}.{routine}: {f}"
+            ctx.hist[k] = ctx.hist.get(k, 0) + 1
         Rn = L.snap(S, R, tol)
         Mj = None
         if M is not None:
-            Mn = L.snap(Rn, mask_nonfinite(Rn, M), TOL)
+            Mn = L.snap(Rn, mask_nonfinite(Rn, M, strict=case["stratum"] in ("powerlaw", "poly")), TOL)
             Mj = L.jnum(Mn)
         ctx.judge(sub, L.jnum(Rn), Sj, Mj, finding=classify(case, mode, Rn, S), what=f"{case['what']} mode {mode}")
     # sequential and parallel runs must agree with each other much more tightly than with the analytic value
@@ -857,7 +893,7 @@ def run(ctx):
     cases = list(corpus())
     n = ctx.n(300, 3000)
     gens = [gen_powerlaw, gen_powerlaw, gen_mc, gen_poly, gen_raise, gen_euler, gen_mc, gen_chain, gen_powerlaw, gen_euler,
-            gen_poly_iavar, gen_raise]
+            gen_poly_iavar, gen_raise, gen_zeroflux]
     while len(cases) < n:
         cases.append(gens[len(cases) % len(gens)](rng))
     batch = 80
